@@ -84,6 +84,7 @@ var hostileProfiles = []string{
 }
 
 var hostileData = []string{
+	"[] ]", "{} {}", "[]\x00", "[]x", "{\"@id\": \"http://a\"} trailing", "[{\"@id\":\"http://a\",\"@type\":\"http://ex.org/v#T\"}]\n[{\"@id\":\"http://b\",\"@type\":\"http://ex.org/v#T\"}]",
 	"[]", "{}", "null", "5", "\"x\"", "true", "[[]]", "[null]", "[1,2]", "{\"@graph\": 5}", "{\"@graph\": []}", "{\"@graph\": [5]}",
 	"{\"@id\": \"http://a\"}", "{\"@id\": \"a\"}", "{\"@id\": \"_:b\", \"http://p\": 1}", "{\"http://p\": 1}",
 	"[{\"@id\":\"http://a\",\"@type\":\"http://ex.org/v#T\"}]",
